@@ -81,7 +81,7 @@ func getMessageBuffer(c io.Closer) ([]byte, error) {
 	// Let's read enough bytes to get the message header (msg type, remaining length)
 	for {
 		// If we have read 5 bytes and still not done, then there's a problem.
-		if l > 5 {
+		if l > 4 {
 			return nil, fmt.Errorf("connect/getMessage: 4th byte of remaining length has continuation bit set")
 		}
 
